@@ -62,6 +62,7 @@ type clientCfg struct {
 	explicitTLS bool
 	tee         int // 0 none, 1 in, 2 out, 3 both
 	others      bool
+	scram       bool // with others: the SASL feature is configured with a SCRAM mechanism only (and the peer offers it)
 }
 
 type observation struct {
@@ -144,11 +145,20 @@ func runAt(feature xmpp.StreamFeature, cfg clientCfg, location, origin jid.JID, 
 		switch phase {
 		case 0:
 			phase = 1
+			if hk := whileWaitingForHeader; hk != nil {
+				// another session runs while this one waits for the peer's header
+				whileWaitingForHeader = nil
+				hk()
+			}
 			h := header(domain)
 			if firstHeaderTo != "" {
 				h = strings.Replace(h, ` from='`, ` to='`+firstHeaderTo+`' from='`, 1)
 			}
-			return h + `<stream:features>` + firstLists[list].xml + `</stream:features>`, nil
+			fl := firstLists[list].xml
+			if cfg.scram {
+				fl = strings.Replace(fl, "<mechanism>PLAIN</mechanism>", "<mechanism>SCRAM-SHA-256</mechanism>", 1)
+			}
+			return h + `<stream:features>` + fl + `</stream:features>`, nil
 		case 1:
 			if !strings.Contains(w, "<starttls") {
 				// the library did not ask for TLS: whatever it does now, the peer just
@@ -186,7 +196,9 @@ func runAt(feature xmpp.StreamFeature, cfg clientCfg, location, origin jid.JID, 
 		return "", nil
 	})
 	features := []xmpp.StreamFeature{feature}
-	if cfg.others {
+	if cfg.others && cfg.scram {
+		features = append(features, xmpp.SASL("", "secret", sasl.ScramSha256), xmpp.BindResource())
+	} else if cfg.others {
 		features = append(features, xmpp.SASL("", "secret", sasl.Plain), xmpp.BindResource())
 	}
 	var teeIn, teeOut io.Writer
@@ -277,7 +289,13 @@ func preTLSOK(pre string) (bool, string) {
 func scenarioBody(c *nd.Ctx) nd.Result {
 	list := c.Choose(len(firstLists), "first-features")
 	answer := c.Choose(len(answers), "answer")
-	cfg := clientCfg{explicitTLS: c.Choose(2, "tls-config") == 1, tee: c.Choose(4, "tee"), others: c.Choose(2, "other-features") == 1}
+	cfg := clientCfg{explicitTLS: c.Choose(2, "tls-config") == 1, tee: c.Choose(4, "tee")}
+	switch c.Choose(3, "other-features") {
+	case 1:
+		cfg.others = true
+	case 2:
+		cfg.others, cfg.scram = true, true
+	}
 	origin := jid.MustParse("me@example.com/r")
 	mk := func() xmpp.StreamFeature {
 		if cfg.explicitTLS {
@@ -285,7 +303,7 @@ func scenarioBody(c *nd.Ctx) nd.Result {
 		}
 		return xmpp.StartTLS(nil)
 	}
-	desc := fmt.Sprintf("first-list=%s answer=%s explicit-tls-config=%v tee=%d other-features=%v", firstLists[list].name, answers[answer].name, cfg.explicitTLS, cfg.tee, cfg.others)
+	desc := fmt.Sprintf("first-list=%s answer=%s explicit-tls-config=%v tee=%d other-features=%v scram-only=%v", firstLists[list].name, answers[answer].name, cfg.explicitTLS, cfg.tee, cfg.others, cfg.scram)
 	c.Note("%s", desc)
 	res := nd.Result{Outcome: "error", NonTrivial: desc}
 	// what the peer's clear-text header says about us: nothing, our own address,
@@ -336,7 +354,7 @@ func scenarioBody(c *nd.Ctx) nd.Result {
 	}
 	// the tee changes nothing
 	if cfg.tee != 0 {
-		base := run(mk(), clientCfg{explicitTLS: cfg.explicitTLS, others: cfg.others}, origin, list, answer)
+		base := run(mk(), clientCfg{explicitTLS: cfg.explicitTLS, others: cfg.others, scram: cfg.scram}, origin, list, answer)
 		if base.panic == nil {
 			if base.preTLS != obs.preTLS {
 				return fail("tee:changes-cleartext-bytes", "without tee the library wrote %q before TLS", base.preTLS)
@@ -426,6 +444,56 @@ func historyBody(c *nd.Ctx) nd.Result {
 	return res
 }
 
+// whileWaitingForHeader, if set, runs once when a session has sent its stream
+// header and its peer has not answered yet.
+var whileWaitingForHeader func()
+
+// sharedConfigBody: one Negotiator value whose configuration function decides
+// per session (by its address) which features it gets, used by two sessions
+// that overlap in time: the second one - not configured for STARTTLS - is
+// negotiated while the first waits for its peer's header or for the answer to
+// its STARTTLS request. What a session is configured with is its own.
+func sharedConfigBody(c *nd.Ctx) nd.Result {
+	list := c.Choose(len(firstLists), "first-features")
+	at := c.Choose(2, "other-session-runs-while-waiting-for") // 0 the peer's header, 1 the answer to STARTTLS
+	otherList := c.Choose(len(firstLists), "other-session-first-features")
+	f := xmpp.StartTLS(nil)
+	sharedNegotiator = xmpp.NewNegotiator(func(s *xmpp.Session, _ *xmpp.StreamConfig) xmpp.StreamConfig {
+		if s == nil || s.LocalAddr().Domain().String() == "plain.example" {
+			return xmpp.StreamConfig{}
+		}
+		return xmpp.StreamConfig{Features: []xmpp.StreamFeature{f}}
+	})
+	defer func() { sharedNegotiator = nil; whileWaitingForHeader = nil; whileWaitingForProceed = nil }()
+	desc := fmt.Sprintf("one Negotiator value configuring sessions by address: a session with STARTTLS (first list %s) and, while it waits for %s, a session without (first list %s)", firstLists[list].name, []string{"its peer's header", "the answer to its STARTTLS request"}[at], firstLists[otherList].name)
+	c.Note("%s", desc)
+	res := nd.Result{Outcome: "shared-config", NonTrivial: desc}
+	var other observation
+	hook := func() {
+		other = runAt(f, clientCfg{}, jid.MustParse("plain.example"), jid.MustParse("me@plain.example/r"), otherList, 0)
+	}
+	if at == 0 {
+		whileWaitingForHeader = hook
+	} else {
+		whileWaitingForProceed = hook
+	}
+	obs := runAt(f, clientCfg{}, jid.MustParse("example.com"), jid.MustParse("me@example.com/r"), list, 0)
+	for _, o := range []observation{obs, other} {
+		if o.panic != nil {
+			res.Violation = &nd.Violation{Sig: "starttls:" + o.panic.Sig(), Msg: desc + ": panic " + o.panic.Value}
+			return res
+		}
+	}
+	if !obs.tlsStarted {
+		res.Violation = &nd.Violation{Sig: "shared-config:no-tls-attempt", Msg: fmt.Sprintf("%s: the session configured with STARTTLS did not start TLS (outcome %s, state %v, err %v)", desc, obs.outcome, obs.state, obs.err)}
+		return res
+	}
+	if obs.sni != "example.com" {
+		res.Violation = &nd.Violation{Sig: "sni:wrong-server-name:shared-config", Msg: fmt.Sprintf("%s: the handshake named %q", desc, obs.sni)}
+	}
+	return res
+}
+
 var _ = stanza.NSClient
 
 func init() {
@@ -440,6 +508,7 @@ func init() {
 			return []drv.Part{
 				{Name: "scenarios", Body: scenarioBody, CutDepth: 3, Budget: b},
 				{Name: "history", Body: historyBody, CutDepth: 2, Budget: b, Workers: 4},
+				{Name: "shared-config", Desc: "one Negotiator value that configures sessions by their address, two overlapping sessions", Body: sharedConfigBody, CutDepth: 2, Budget: b, Workers: 4},
 			}
 		},
 	})
